@@ -207,3 +207,103 @@ def c25_2(cx):
     cx.flow(inp, inp.origin_local(0), [r"ingredient: key::DatabaseKeyIndex::ingredient_index\(\$1\)\}$"], [r"with_tag\(.*const:1"], "input edges carry no tag")
     ide = cx.fn(r"^zalsa_local::QueryEdge::id$")
     cx.flow(ide, ide.origin_local(0), [r"^id::Id::with_generation\(id::Id::from_index\(\$1\.index\), \$1\.generation\)$"], [], "id() restores index and generation")
+
+
+H_EXTRA = "zalsa_local::QueryRevisionsExtraInner"
+T_PACKED = "zalsa_local::PackedQueryEdge"
+T_WIDE = "zalsa_local::QueryEdge"
+
+
+@ob("C25.3", ["C25", "C23"], "a reader (or the destructor) that interprets the allocation with another header or edge type than the writer used reads edges at the wrong offset / with the wrong width", kind="TABLE (writer/reader/destructor agreement on generic instantiations)")
+def c25_3(cx):
+    """OriginAndExtra: for each (extra?, packed|wide) combination the constructor, origin() and Drop use the same SliceWithHeader<H, E> instantiation: H = QueryRevisionsExtraInner iff the tag says WithExtra, E = PackedQueryEdge iff the tag says Packed; QueryEdges::packed/wide wraps the matching slice; allocate_derived_with_header returns (Packed, packed allocation) / (Wide, wide allocation), spills the already packed prefix through PackedQueryEdge::edge in order, then the offending edge, then the rest; metadata = number of edges."""
+    lay = r"OriginAndExtraTag::layout\("
+    elay = r"QueryOriginTag::layout\("
+    for path, callee in ((r"^zalsa_local::OriginAndExtra::origin$", r"SliceWithHeader::<H, T>::slice$"), (r"^<zalsa_local::OriginAndExtra as std::ops::Drop>::drop$", r"SliceWithHeader::<H, T>::from_raw_parts$")):
+        b = cx.fn(path)
+        sites = cx.some_calls(b, callee, 4, "SliceWithHeader instantiations in " + b.short)
+        seen = set()
+        for s in sites:
+            h, t = s.node()["fn"]["gargs"][:2]
+            seen.add((h, t))
+            cx.only_if(b, s, VariantIn(lay, {"WithExtra"} if h == H_EXTRA else {"WithoutExtra"}, desc="tag layout is %s" % ("WithExtra" if h == H_EXTRA else "WithoutExtra")), "%s: header type %s is used exactly for that tag layout" % (b.short, h.split("::")[-1]))
+            cx.only_if(b, s, VariantIn(elay, {"Packed"} if t == T_PACKED else {"Wide"}, desc="edge layout is %s" % ("Packed" if t == T_PACKED else "Wide")), "%s: edge type %s is used exactly for that edge layout" % (b.short, t.split("::")[-1]))
+            cx.flow(b, cx.arg(s, 0), [r"^\$1\.payload\.allocation$"], [], "%s: the allocation interpreted is this origin's" % b.short, s)
+            cx.flow(b, cx.arg(s, 1), [r"^\$1\.metadata$"], [r"^const:"], "%s: the slice length is the stored edge count" % b.short, s)
+        cx.check(seen == {(H_EXTRA, T_WIDE), (H_EXTRA, T_PACKED), ("()", T_WIDE), ("()", T_PACKED)}, "%s covers all four layouts" % b.short, sites[0], {"seen": sorted(seen)}, key="four-layouts " + b.short)
+    o = cx.fn(r"^zalsa_local::OriginAndExtra::origin$")
+    for s in o.calls(r"^zalsa_local::QueryEdges::<'a>::(packed|wide)$"):
+        a = cx.arg(s, 0)
+        want = T_PACKED if o.callee(s).endswith("packed") else T_WIDE
+        m = re.search(r"SliceWithHeader::<H, T>::slice", a)
+        src = [x for x in o.calls(r"SliceWithHeader::<H, T>::slice$") if o.reaches(x, s) and s.bb in o.reachable(x.node()["t"], "normal", cut_blocks={y.bb for y in o.calls(r"SliceWithHeader::<H, T>::slice$") if y != x})]
+        cx.check(bool(src) and all(x.node()["fn"]["gargs"][1] == want for x in src), "QueryEdges::%s wraps a slice of %s" % (o.callee(s).split("::")[-1], want.split("::")[-1]), s, key="wrap " + o.callee(s).split("::")[-1] + " %d" % s.bb)
+    for path, h, tagfn in ((r"^zalsa_local::OriginAndExtra::new_derived_without_extra$", "()", "without_extra"), (r"^zalsa_local::OriginAndExtra::new_derived_with_extra$", H_EXTRA, "with_extra")):
+        b = cx.fn(path)
+        al = cx.one_call(b, r"OriginAndExtra::allocate_derived_with_header$", "allocate_derived_with_header in " + b.short)
+        cx.check(al.node()["fn"]["gargs"][0] == h, "%s allocates with header type %s" % (b.short, h.split("::")[-1]), al, {"gargs": al.node()["fn"]["gargs"][:1]}, key="alloc-header " + b.short)
+        cx.one_call(b, r"OriginAndExtraTag::%s$" % tagfn, "tag constructor in " + b.short)
+        other = "with_extra" if tagfn == "without_extra" else "without_extra"
+        cx.check(not b.calls(r"OriginAndExtraTag::%s$" % other), "%s tags the allocation as %s" % (b.short, tagfn), al, key="tag " + b.short)
+        ro = b.origin_local(0)
+        cx.flow(b, ro, [r"tag: zalsa_local::OriginAndExtraTag::%s\(zalsa_local::QueryOriginTag::derived\(\$2, zalsa_local::OriginAndExtra::allocate_derived_with_header\(.*\)\.0\)\), payload: OriginAndExtraPayload\{allocation: .*allocate_derived_with_header\(.*\)\.1\}, metadata: .*allocate_derived_with_header\(.*\)\.2\}$" % tagfn], [], "%s stores (tag(kind, returned layout), returned allocation, returned length)" % b.short)
+    a = cx.fn(r"^zalsa_local::OriginAndExtra::allocate_derived_with_header$")
+    for s in a.aggregates(r".*"):
+        pass
+    rets = [(site, a._origin_def(site, kind, node, 0, None, ())) for site, kind, node in value_defs(a, 0)]
+    cx.require(len(rets) == 2, "allocate_derived_with_header: two return forms")
+    for site, o_ in rets:
+        if "QueryEdgeLayout::Wide" in o_:
+            cx.flow(a, o_, [r"^tuple\{0: QueryEdgeLayout::Wide\{\}, 1: zalsa_local::SliceWithHeader::<H, T>::into_raw\(zalsa_local::SliceWithHeaderBuilder::<H, T>::finish\(zalsa_local::SliceWithHeader::<H, T>::allocate\(.*\), \$2\)\), 2: "], [], "Wide is returned with the wide allocation", site)
+        else:
+            cx.flow(a, o_, [r"^tuple\{0: QueryEdgeLayout::Packed\{\}, 1: zalsa_local::SliceWithHeader::<H, T>::into_raw\(zalsa_local::SliceWithHeaderBuilder::<H, T>::finish\(zalsa_local::SliceWithHeader::<H, T>::allocate\(.*\), \$2\)\), 2: "], [], "Packed is returned with the packed allocation", site)
+    fin = {s.node()["fn"]["gargs"][1]: s for s in a.calls(r"SliceWithHeaderBuilder::<H, T>::finish$")}
+    cx.check(set(fin) == {T_PACKED, T_WIDE}, "one packed and one wide builder are finished", None, {"finish": sorted(fin)}, key="two-builders", body=a)
+    # which finish feeds which layout: the Wide return is dominated by the wide finish
+    for site, o_ in rets:
+        want = T_WIDE if "QueryEdgeLayout::Wide" in o_ else T_PACKED
+        cx.check(a.site_dominates(fin[want], site) if want in fin else False, "the %s layout is paired with the %s builder's allocation" % ("Wide" if want == T_WIDE else "Packed", want.split("::")[-1]), site, key="pair " + want)
+    # spill order: packed prefix (through PackedQueryEdge::edge), the offending edge, the rest
+    exts = [s for s in a.calls(r"SliceWithHeaderBuilder::<H, T>::extend$")]
+    push_w = [s for s in a.calls(r"SliceWithHeaderBuilder::<H, T>::push$") if s.node()["fn"]["gargs"][1] == T_WIDE]
+    cx.require(len(exts) == 2 and len(push_w) == 1, "spill sequence: extend(prefix), push(edge), extend(rest)")
+    pre = [s for s in exts if "PackedQueryEdge::edge" in cx.arg(s, 1) or "initialized_slice" in cx.arg(s, 1)]
+    rest = [s for s in exts if s not in pre]
+    cx.require(len(pre) == 1 and len(rest) == 1, "prefix/rest extends")
+    cx.check(a.site_dominates(pre[0], push_w[0]) and a.site_dominates(push_w[0], rest[0]), "on a spill the edge sequence is preserved: already-packed prefix, then the edge that did not fit, then the rest", push_w[0], key="spill-order")
+    cx.flow(a, cx.arg(pre[0], 1), [r"fn:zalsa_local::PackedQueryEdge::edge"], [], "the packed prefix is unpacked with PackedQueryEdge::edge", pre[0])
+    cx.check(not a.calls(r"Iterator::rev$"), "no reversal while spilling", pre[0], key="no-rev")
+    ln = a.calls(r"ExactSizeIterator::len$")
+    cx.check(len(ln) == 1, "metadata is the iterator's length", ln[0] if ln else None, key="len", body=a)
+    ce = cx.fn(r"^zalsa_local::OriginAndExtra::clear_edges$") if "persistence" not in cx.facts.features else None
+    if ce is not None:
+        nd = cx.one_call(ce, r"OriginAndExtra::new_derived_with_kind$", "rebuild in clear_edges")
+        cx.flow(ce, cx.arg(nd, 2), [r"^QueryRevisionsExtra\{0: std::option::Option::<T>::map\(zalsa_local::OriginAndExtra::extra_mut\(\$1\), closure:"], [r"Option::None"], "clearing edges moves the extra data into the rebuilt origin", nd)
+
+
+@ob("C23.3", ["C23", "C05"], "fetch() unwraps the memo's value unchecked: a value-less memo returned by refresh_memo is undefined behaviour", kind="ONLYIF (Option typestate before unwrap_unchecked)")
+def c23_3(cx):
+    """Every unwrap_unchecked of a memo value in the crate is in fetch(), applied to refresh_memo's result; refresh_memo returns only fetch_hot's Some (guarded by value.is_some(): C01.4a) or fetch_cold's Some: the old memo (guarded by value.is_some(): C01.4b), execute's result (Memo::new(Some(..)): C01.7) or fetch_cold_cycle's result (an existing memo guarded by value.is_some(), or a fresh Memo::new(Some(cycle_initial)))."""
+    n = 0
+    for s in cx.facts.call_sites_of(r"^std::option::Option::<T>::unwrap_unchecked$"):
+        if "Memo::<C>::value" in cx.arg(s, 0):
+            n += 1
+            ok = re.search(r"fetch::<impl function::IngredientImpl<C>>::fetch$", s.body.path) is not None and "refresh_memo(" in cx.arg(s, 0)
+            cx.check(ok, "a memo's value is unwrapped unchecked only in fetch, on refresh_memo's result", s, key="unwrap-site " + s.body.path)
+    cx.require(n >= 1, "unwrap_unchecked of a memo value")
+    c = cx.fn(r"^function::fetch::<impl function::IngredientImpl<C>>::fetch_cold_cycle$")
+    memo = r"get_memo_from_table_for\(\$1, \$2, \$5, \$7\)"
+    some = VariantIn(memo + r".*\.value$", {"Some"}, desc="memo.value is Some")
+    dead = cx.facts.dead_end_blocks(c)
+    for site, kind, node in value_defs(c, 0):
+        o = c._origin_def(site, kind, node, 0, None, ())
+        if site.bb in dead:
+            continue  # the `Panic` strategy arm: the call never returns
+        if re.match(r"^function::IngredientImpl::<C>::extend_memo_lifetime\(", o):
+            cx.only_if(c, site, some, "fetch_cold_cycle returns an existing memo only if it has a value")
+        elif re.match(r"^function::IngredientImpl::<C>::insert_memo\(.*function::memo::Memo::<C>::new\(Option::Some\{", o):
+            cx.check(True, "fetch_cold_cycle otherwise returns a memo it just built with Some(value)", site, key="fresh-some")
+        else:
+            cx.check(False, "fetch_cold_cycle returns a memo whose value is not known to be present", site, {"origin": o[:200]}, key="unknown-return")
+    r = cx.fn(r"^function::fetch::<impl function::IngredientImpl<C>>::refresh_memo$")
+    ret_cases(cx, r, [(r"fetch_hot\(.*\)@Some\.0$", [], "fetch_hot's memo"), (r"fetch_cold\(.*\)@Some\.0$", [], "fetch_cold's memo")], [], "refresh_memo")
